@@ -2089,6 +2089,8 @@ def preprocess_file(
         def_args, sub = def_value
         def_args = def_args.split(",")
         regex = re.compile(rf"\b{def_name}\s*\({','.join(['(.*)']*len(def_args))}\)")
+        # The body is used as a re.sub template: keep its own backslashes literal
+        sub = sub.replace("\\", "\\\\")
 
         for i, arg in enumerate(def_args, start=1):
             sub = re.sub(rf"\b({arg.strip()})\b", rf"\\{i}", sub)
@@ -2307,6 +2309,9 @@ def preprocess_file(
 
             if isinstance(def_regex, tuple):
                 def_regex, value = def_regex
+            else:
+                # Object-like macro bodies are literal text, not re.sub templates
+                value = value.replace("\\", "\\\\")
 
             line_new, nsubs = def_regex.subn(value, line)
             if nsubs > 0:
